@@ -230,4 +230,104 @@ example : Sonic.Spec.Xfer.step { stream := [1,2,3] } (.read 4 false) (.read .ok 
 example : Sonic.Spec.Xfer.step { stream := [] } (.write [1,2,3] true) (.write .err 3 [1,2] ) = none := by decide
 end Monitor
 
+/-! ### What acceptance by the monitor means at the level of the whole connection
+
+These two theorems are about the monitor alone, hence about *any* trace it accepts — the model's (by
+`C02_monitor_accepts_model`) and the implementation's (checked on every run by `sonicdrv xfer`). -/
+section Stream
+open Sonic.Spec.Xfer
+
+/-- The monitor run over a list of (operation, observation) pairs. -/
+def runMon : S → List (Op × Obs) → Option S
+  | s, [] => some s
+  | s, (op, ob) :: rest => match step s op ob with
+    | none => none
+    | some s' => runMon s' rest
+
+/-- what a completion delivered to the caller (reads) -/
+def delivered : Op × Obs → List UInt8
+  | (.read _ _, .read _ _ buf _) => buf
+  | _ => []
+
+/-- what a completion reports as taken from the caller's buffer (writes): the first `n` bytes of it -/
+def taken : Op × Obs → List UInt8
+  | (.write b _, .write _ n _) => b.take n
+  | _ => []
+
+/-- **C02 (stream fidelity of an accepted trace, reads).** If the monitor accepts a trace — any number of reads and
+writes, interleaved in any way — then the bytes delivered by the read completions, concatenated in completion order and
+followed by what is left of the peer's stream, are the peer's stream: none lost, duplicated, reordered or invented. -/
+theorem C02_accepted_reads_are_the_stream : ∀ (tr : List (Op × Obs)) (s s' : S), runMon s tr = some s' →
+    s.stream = (tr.map delivered).flatten ++ s'.stream
+  | [], s, s', h => by simp only [runMon, Option.some.injEq] at h; subst h; simp
+  | (op, ob) :: rest, s, s', h => by
+    simp only [runMon] at h
+    cases hs : step s op ob with
+    | none => rw [hs] at h; cases h
+    | some s1 =>
+      rw [hs] at h
+      have ih := C02_accepted_reads_are_the_stream rest s1 s' h
+      simp only [List.map_cons, List.flatten_cons, List.append_assoc]
+      rw [← ih]
+      cases op with
+      | read len all =>
+        cases ob with
+        | read res n buf clean =>
+          simp only [step] at hs
+          split at hs
+          · rename_i hc
+            cases hs
+            simp only [delivered]
+            rw [hc.1]; exact (List.take_append_drop n s.stream).symm
+          · cases hs
+        | write _ _ _ => simp [step] at hs
+      | write b all =>
+        cases ob with
+        | read _ _ _ _ => simp [step] at hs
+        | write res n wire =>
+          simp only [step] at hs
+          split at hs
+          · cases hs; simp [delivered]
+          · cases hs
+
+/-- **C02 (stream fidelity of an accepted trace, writes).** Likewise the bytes the transport accepted, in order, are the
+concatenation of `b[:n]` over the write completions: the count passed to each callback is exactly what that operation
+moved out of the caller's buffer, and bytes of different operations are never interleaved. -/
+theorem C02_accepted_writes_are_the_wire : ∀ (tr : List (Op × Obs)) (s s' : S), runMon s tr = some s' →
+    s'.wire = s.wire ++ (tr.map taken).flatten
+  | [], s, s', h => by simp only [runMon, Option.some.injEq] at h; subst h; simp
+  | (op, ob) :: rest, s, s', h => by
+    simp only [runMon] at h
+    cases hs : step s op ob with
+    | none => rw [hs] at h; cases h
+    | some s1 =>
+      rw [hs] at h
+      have ih := C02_accepted_writes_are_the_wire rest s1 s' h
+      rw [ih]
+      simp only [List.map_cons, List.flatten_cons]
+      cases op with
+      | read len all =>
+        cases ob with
+        | read res n buf clean =>
+          simp only [step] at hs
+          split at hs
+          · cases hs; simp [taken]
+          · cases hs
+        | write _ _ _ => simp [step] at hs
+      | write b all =>
+        cases ob with
+        | read _ _ _ _ => simp [step] at hs
+        | write res n wire =>
+          simp only [step] at hs
+          split at hs
+          · rename_i hc
+            cases hs
+            simp only [taken, List.append_assoc]
+            rw [hc.1]
+          · cases hs
+
+example : runMon { stream := [1,2,3,4,5] } [(.read 2 false, .read .ok 2 [1,2] true), (.write [9,8,7] true, .write .ok 3 [9,8,7]),
+    (.read 4 true, .read .eof 3 [3,4,5] true)] = some { stream := [], wire := [9,8,7] } := by decide
+end Stream
+
 end Sonic.Props.C02
